@@ -201,6 +201,26 @@ pub fn hand(b: &mut Builder) {
     );
     b.program("enum_unicode_lower", e);
 
+    // raw identifiers: the field `r#type` is read from the key "type"
+    let mut dflt = b.f("r#loop");
+    dflt.default = Dflt::Trait;
+    let fields = vec![b.f("r#type"), dflt, b.f("plain")];
+    let s = b.strukt("HRawIdent", None, Deny::Default, Validate::No, fields);
+    b.program("struct_raw_ident", s.clone());
+    b.program("vec_struct_raw_ident", Desc::Vec(bx(s)));
+    let fields = vec![b.f("r#type"), b.f("r#my_loop"), b.f("other_field")];
+    let s = b.strukt("HRawIdentCamel", Some(RenameAll::Camel), Deny::No, Validate::No, fields);
+    b.program("struct_raw_ident_camel", s);
+    let variants = vec![
+        VariantDef { ident: "r#Move".into(), rename: None, rename_all: None, fields: Some(vec![b.f("r#where"), b.f("speed")]) },
+        VariantDef { ident: "Stay".into(), rename: None, rename_all: None, fields: None },
+    ];
+    let e = b.add_type(
+        "HRawIdentEnum",
+        TypeKind::Tagged { tag: "do".into(), rename_all: None, deny: Deny::No, validate: Validate::No, variants },
+    );
+    b.program("enum_raw_ident", e);
+
     // the empty string is a legal key: `rename = ""`
     let mut e = b.f("empty_named");
     e.rename = Some(String::new());
